@@ -434,6 +434,48 @@ fn check_ctap(ctx: &mut Ctx, case: &Case, mut auth: passkey_authenticator::Authe
             })
             .collect()
     });
+    // one CTAP2-level ceremony in four is a registration: extension inputs reach the authenticator whatever getInfo says
+    if case.uv_req % 4 == 3 {
+        use passkey_types::ctap2::make_credential;
+        let before: Vec<Vec<u8>> = _store.creds().iter().map(|p| p.credential_id.to_vec()).collect();
+        let req = make_credential::Request {
+            client_data_hash: vec![6u8; 32].into(),
+            rp: make_credential::PublicKeyCredentialRpEntity { id: SITES[0].effective.into(), name: None },
+            user: passkey_types::webauthn::PublicKeyCredentialUserEntity { id: b"c09-ctap-user".to_vec().into(), display_name: "d".into(), name: "n".into() },
+            pub_key_cred_params: cer::params(&[-7]),
+            exclude_list: None,
+            extensions: Some(make_credential::ExtensionInputs { hmac_secret: (case.uv_req & 4 != 0).then_some(true), hmac_secret_mc: None, prf: (case.uv_req & 8 == 0).then(|| AuthenticatorPrfInputs { eval: h.eval.as_ref().map(conv), eval_by_credential: None }) }),
+            options: make_credential::Options { rk: false, up: true, uv: case.verified },
+            pin_auth: None,
+            pin_protocol: None,
+        };
+        let res = std::panic::catch_unwind(std::panic::AssertUnwindSafe(|| block_on(auth.make_credential(req)))).map_err(|_| format!("make_credential panicked: {}", crate::last_panic()))?;
+        let Ok(resp) = res else {
+            ctx.class("ctap-register/error");
+            return Ok(());
+        };
+        let new: Vec<Passkey> = _store.creds().into_iter().filter(|p| !before.contains(&p.credential_id.to_vec())).collect();
+        let stored_secret = new.first().is_some_and(|p| snap(p).hmac_uv.is_some() || snap(p).hmac_no_uv.is_some());
+        let out = resp.unsigned_extension_outputs.as_ref().and_then(|o| o.prf.as_ref());
+        ctx.nontrivial(case);
+        if !case.hmac.enabled() {
+            ctx.class("ctap-register/no-capability");
+            if stored_secret {
+                return Err("an authenticator without the hmac-secret capability stored a PRF secret with the new credential (CTAP level)".into());
+            }
+            if out.is_some() {
+                return Err("an authenticator without the hmac-secret capability produced a PRF output at registration (CTAP level)".into());
+            }
+        } else {
+            ctx.class("ctap-register/with-capability");
+            if let Some(o) = out {
+                if o.enabled != stored_secret {
+                    return Err(format!("registration reports enabled = {} but secrets stored with the credential = {stored_secret} (CTAP level)", o.enabled));
+                }
+            }
+        }
+        return Ok(());
+    }
     let req = get_assertion::Request {
         rp_id: SITES[0].effective.into(),
         client_data_hash: vec![5u8; 32].into(),
@@ -518,7 +560,7 @@ fn strategy() -> impl Strategy<Value = Case> {
 }
 
 pub fn run(ctx: &mut Ctx) {
-    ctx.rule = "ceremonies (registration / assertion through Client, assertions also at the CTAP2 level) over authenticator configurations {no hmac-secret, UV-only, UV-only+mc, with non-UV secret, with non-UV secret+mc} x verified/unverified user x UV requirement, stores with 1-4 credentials (some ids are prefixes of others) holding no / gated-only / both secrets (32 bytes, sometimes 1 / 64 / 65 / 96 bytes), PRF inputs of any length (one or two values, eval and evalByCredential with valid, base64, empty, undecodable and unlisted keys, prf / prfAlreadyHashed / both), allow list present or not. Non-trivial = a ceremony whose PRF result was compared with the oracle, or a malformed request; distinct by case.".into();
+    ctx.rule = "ceremonies (registration / assertion through Client, assertions and registrations also at the CTAP2 level, where extension inputs reach the authenticator whatever it advertises) over authenticator configurations {no hmac-secret, UV-only, UV-only+mc, with non-UV secret, with non-UV secret+mc} x verified/unverified user x UV requirement, stores with 1-4 credentials (some ids are prefixes of others) holding no / gated-only / both secrets (32 bytes, sometimes 1 / 64 / 65 / 96 bytes), PRF inputs of any length (one or two values, eval and evalByCredential with valid, base64, empty, undecodable and unlisted keys, prf / prfAlreadyHashed / both), allow list present or not. Non-trivial = a ceremony whose PRF result was compared with the oracle, or a malformed request; distinct by case.".into();
     ctx.assumptions = vec![
         "HMAC-SHA-256 is implemented in the harness from SHA-256 (RFC 2104); salts are SHA-256(\"WebAuthn PRF\" || 0x00 || input) or the raw 32 bytes".into(),
         "at registration a verified ceremony may use either secret (the statement demands the gated secret 'always' only for assertions); an unverified one must use the non-gated secret".into(),
